@@ -131,13 +131,6 @@ impl DocumentBuilder {
         }
         let value_span = value.into();
         let value = parse_attribute(value.as_str().into(), value.start())?.to_string();
-        // if this is an xml:id we want to apply xml:id normalization as described here
-        // https://www.w3.org/TR/xml-id/#id-avn
-        let value = if name == "id" && prefix == "xml" {
-            normalize_xml_id(&value)
-        } else {
-            value
-        };
         attributes.push(AttributeBuilder {
             prefix: prefix.to_string(),
             name: name.to_string(),
@@ -187,13 +180,21 @@ impl DocumentBuilder {
         }
         // add attribute nodes
         let mut attribute_spans: Vec<(NameId, Span, Span)> = Vec::new();
-        for attribute_builder in element_builder.attributes {
+        for mut attribute_builder in element_builder.attributes {
             let name_id = self.name_id_builder.attribute_name_id(
                 &attribute_builder.prefix,
                 &attribute_builder.name,
                 attribute_builder.prefix_span,
                 xot,
             )?;
+            // if this is an xml:id we want to apply xml:id normalization as described here
+            // https://www.w3.org/TR/xml-id/#id-avn
+            // What is an xml:id is decided by the expanded name, not by how
+            // the attribute is written: the xml prefix can be bound to
+            // another namespace, another prefix to the XML namespace.
+            if name_id == self.xml_id_id {
+                attribute_builder.value = normalize_xml_id(&attribute_builder.value);
+            }
             // two attributes written with different prefixes can still have
             // the same expanded name
             if attribute_spans.iter().any(|(n, _, _)| *n == name_id) {
